@@ -6,11 +6,12 @@
 (* pipeline (folds).                                                       *)
 (*                                                                         *)
 (* A token is what one directive contributes once the scanner has cut it   *)
-(* into lexemes:  [t |-> "D", k, p, a, e, b]  (kind, parameters, annotation,*)
-(* explicit "(" flag, body id),  [t |-> "C"] for ")".                      *)
+(* into lexemes:  [t |-> "D", k, p, a, e, b, c]  (kind, parameters,         *)
+(* annotation, explicit "(" flag, body id, response code),  [t |-> "C"]    *)
+(* for ")".                                                                *)
 (*                                                                         *)
 (* T == [nodes, ctx, res, errTok]                                          *)
-(*   nodes : sequence of [k,p,a,e,b,parent,tok] in creation order          *)
+(*   nodes : sequence of [k,p,a,e,b,c,parent,tok] in creation order        *)
 (*           (parent = 0 for a root directive)                             *)
 (*   ctx   : node id of core.currentContextDirective (0 = root context)    *)
 (*   res   : "ok" | "ctxerr" | "noctx" | "unclosed"                        *)
@@ -26,7 +27,7 @@ HasPathParam(d) == d.k \in Methods /\ d.p # <<>>
 Admits(c, d) == d.k \in Allowed(c.k) /\ ~(c.k = "URL" /\ HasPathParam(d))
 
 Attach(T, c, d, i) ==
-  LET n == [k |-> d.k, p |-> d.p, a |-> d.a, e |-> d.e, b |-> d.b, parent |-> c, tok |-> i]
+  LET n == [k |-> d.k, p |-> d.p, a |-> d.a, e |-> d.e, b |-> d.b, c |-> d.c, parent |-> c, tok |-> i]
   IN [T EXCEPT !.nodes = Append(@, n), !.ctx = Len(T.nodes) + 1]
 
 Fail(T, r, i) == [T EXCEPT !.res = r, !.errTok = i]
